@@ -22,7 +22,8 @@ def cfg_fft(tier, seed):
     out = []
     for Nr, Nc in itertools.product(range(2, top + 1), repeat=2):
         for os in (1, 2):
-            if Nr % os or Nc % os:
+            odd_os = bool(Nr % os or Nc % os)
+            if odd_os and Nr * Nc > 12:
                 continue
             pups = {(min(ptop, Nr), min(ptop, Nc)), (max(1, min(ptop, Nr) - 1), max(1, min(ptop, Nc) - 1)), (1, 2) if Nc >= 2 else (1, 1)}
             for nr, nc in sorted(pups):
@@ -33,6 +34,8 @@ def cfg_fft(tier, seed):
                 for shp in pick:
                     out.append({'N': [Nr, Nc], 'n': [nr, nc], 'os': os, 'shape': None if shp is None else list(shp), 'kind': 'value'})
                 out.append({'N': [Nr, Nc], 'n': [nr, nc], 'os': os, 'shape': [Nr // os + 1, Nc // os], 'kind': 'oversize'})
+                if Nr // os >= 2:
+                    out.append({'N': [Nr, Nc], 'n': [nr, nc], 'os': os, 'shape': [Nr // os - 1, Nc // os + 1], 'kind': 'oversize'})
     return out, len(out), False
 
 
@@ -68,6 +71,15 @@ def run_fft(W, cfg):
     W.ob('reported wavelength', o.wavelength, lam)
     dshape = (cfg['N'][0] // os, cfg['N'][1] // os) if shp is None else shp
     w2 = lt.Wavefront(o.wavelength) * pupil
+    if shp is None and (cfg['N'][0] % os or cfg['N'][1] % os):
+        # the full FFT grid is not a whole number of detector pixels: compare on the largest centred window that is
+        d = lt.propagate_dft(w2, pixelscale=du, shape=dshape, oversample=os)
+        full = o.field
+        S, Sd = full.shape, d.field.shape
+        r0, c0 = S[0] // 2 - Sd[0] // 2, S[1] // 2 - Sd[1] // 2
+        W.ob('fft field = dft field (centred window)', full[r0:r0 + Sd[0], c0:c0 + Sd[1]], d.field)
+        W.ob('pixelscale', [o.pixelscale[0], o.pixelscale[1]], [du[0] / os, du[1] / os])
+        return
     d = lt.propagate_dft(w2, pixelscale=du, shape=dshape, oversample=os)
     W.ob('fft field = dft field', o.field, d.field)
     W.ob('pixelscale', [o.pixelscale[0], o.pixelscale[1]], [du[0] / os, du[1] / os])
@@ -78,7 +90,7 @@ def run_fft(W, cfg):
 
 def cfg_scratch(tier, seed):
     out = []
-    grids = [(2, 2), (3, 2), (4, 3)] if tier == 'quick' else [(2, 2), (3, 2), (4, 3), (5, 4), (6, 6)]
+    grids = [(2, 2), (3, 2), (4, 3), (2, 3), (3, 4)] if tier == 'quick' else [(2, 2), (3, 2), (4, 3), (2, 3), (3, 4), (5, 4), (4, 6), (6, 6)]
     for Nr, Nc in grids:
         for extra in ('exact', 'larger', 'much-larger', 'smaller-r', 'smaller-c'):
             out.append({'N': [Nr, Nc], 'n': [min(2, Nr), min(2, Nc)], 'os': 1, 'extra': extra})
